@@ -240,6 +240,9 @@ func (d *Decoder) readTagObject() (interface{}, error) {
 		return nil, newCodecError("readTagObject", err)
 	}
 	idx := int(i)
+	if idx < 0 || idx >= len(d.clsDefList) {
+		return nil, newCodecError("readTagObject", "cls def ref index %d out of range %d", idx, len(d.clsDefList))
+	}
 	clsD := d.clsDefList[idx]
 	typ, ok := d.typMap[clsD.FullClassName]
 	if !ok {
